@@ -1097,7 +1097,10 @@ func (C18) AfterCall(w *World, c *Call) {
 		if text == "" {
 			exp = attLang
 			if exp == "" {
-				exp = qrLang
+				// a text-less message whose attachments the markers say nothing about - unmarked ones, or
+				// ones the action defines but evaluation dropped as invalid, which still decide the locale
+				w.probe("c18_locale_unjudged_textless")
+				return
 			}
 		}
 		if exp != "" && lang != exp {
